@@ -180,38 +180,37 @@ def _types(ck, prog):
 def _pair(ck, prog):
     f = prog.fn(SEQ, "Sequence.swapRes")
     construct = SEQ_PATH + ":Sequence.swapRes"
-    body = f.body()
-    defs = {}
-    copies = {}
-    stores = {}
+    defs, copies, stores = {}, {}, {}
     for n in ast.walk(f.node):
-        if isinstance(n, ast.Assign) and len(n.targets) == 1:
-            t = n.targets[0]
-            if isinstance(t, ast.Name):
-                defs.setdefault(t.id, []).append(n.value)
-                v = unparse(n.value).replace(" ", "")
+        if not (isinstance(n, ast.Assign) and len(n.targets) == 1):
+            continue
+        t = n.targets[0]
+        pairs = [(t, n.value)]
+        if isinstance(t, ast.Tuple) and isinstance(n.value, ast.Tuple) and len(t.elts) == len(n.value.elts):
+            pairs = list(zip(t.elts, n.value.elts))
+        for a, b in pairs:
+            if isinstance(a, ast.Name):
+                defs.setdefault(a.id, []).append(b)
+                v = unparse(b).replace(" ", "")
                 if v == "list(self.seq)":
-                    copies[t.id] = "seq"
+                    copies[a.id] = "seq"
                 elif v in ("cp.deepcopy(self.chargePattern)", "copy.deepcopy(self.chargePattern)", "np.copy(self.chargePattern)",
-                           "self.chargePattern.copy()", "np.array(self.chargePattern)"):
-                    copies[t.id] = "cp"
-            elif isinstance(t, ast.Subscript) and isinstance(t.value, ast.Name):
-                stores.setdefault(t.value.id, []).append((unparse(t.slice), n.value))
-            elif isinstance(t, ast.Tuple) and isinstance(n.value, ast.Tuple) and len(t.elts) == len(n.value.elts):
-                for a, b in zip(t.elts, n.value.elts):
-                    if isinstance(a, ast.Subscript) and isinstance(a.value, ast.Name):
-                        stores.setdefault(a.value.id, []).append((unparse(a.slice), b))
-    ck.ob("PAIR-swap", construct, sorted(copies.values()) == ["cp", "seq"], expected="fresh copies list(self.seq) and deepcopy(self.chargePattern)",
-          found=copies, slot="fresh-copies", where=f.loc())
+                           "self.chargePattern.copy()", "np.array(self.chargePattern)", "deepcopy(self.chargePattern)"):
+                    copies[a.id] = "cp"
+            elif isinstance(a, ast.Subscript) and isinstance(a.value, ast.Name):
+                stores.setdefault(a.value.id, []).append((unparse(a.slice), b))
+    # a working array that aliases the receiver's own pattern is an effect on the receiver (reported by EFF); here: shape
+    ck.shape(sorted(copies.values()) == ["cp", "seq"], "swapRes: one copy of the residues and one copy of the charge pattern", f.loc())
 
     def source(expr, arr_name, kind):
-        """resolve a stored value to (array kind, index text)"""
         if isinstance(expr, ast.Subscript):
             b = unparse(expr.value)
             if (b == arr_name) or (kind == "seq" and b == "self.seq") or (kind == "cp" and b == "self.chargePattern"):
                 return (kind, unparse(expr.slice))
         if isinstance(expr, ast.Name) and len(defs.get(expr.id, [])) == 1:
             return source(defs[expr.id][0], arr_name, kind)
+        if isinstance(expr, ast.Call) and getattr(expr.func, "id", None) in ("float", "int") and len(expr.args) == 1:
+            return source(expr.args[0], arr_name, kind)
         return None
     perms = {}
     for name, kind in copies.items():
@@ -219,21 +218,21 @@ def _pair(ck, prog):
         for dst, val in stores.get(name, []):
             p[dst] = source(val, name, kind)
         perms[kind] = p
-    ok = False
-    if set(perms) == {"seq", "cp"}:
-        ps, pc = perms["seq"], perms["cp"]
-        idx = sorted(ps)
-        ok = len(idx) == 2 and sorted(pc) == idx and ps[idx[0]] == ("seq", idx[1]) and ps[idx[1]] == ("seq", idx[0]) \
-            and pc[idx[0]] == ("cp", idx[1]) and pc[idx[1]] == ("cp", idx[0])
+    ck.shape(all(v is not None for p in perms.values() for v in p.values()) and all(len(p) == 2 for p in perms.values()),
+             "swapRes: two stores into each copy, each from a readable element of the receiver", f.loc())
+    ps, pc = perms["seq"], perms["cp"]
+    idx = sorted(ps)
+    ok = sorted(pc) == idx and ps[idx[0]] == ("seq", idx[1]) and ps[idx[1]] == ("seq", idx[0]) \
+        and pc[idx[0]] == ("cp", idx[1]) and pc[idx[1]] == ("cp", idx[0])
     ck.ob("PAIR-swap", construct, ok, expected="the same two indices are exchanged in the residue copy and in the charge-pattern copy, from the receiver's own values",
           found={k: {d: v for d, v in p.items()} for k, p in perms.items()}, slot="paired-exchange", where=f.loc())
-    rets = [n for n in ast.walk(f.node) if isinstance(n, ast.Return) and n.value is not None]
-    seqcopy = next((n for n, k in copies.items() if k == "seq"), None)
-    cpcopy = next((n for n, k in copies.items() if k == "cp"), None)
-    want = "Sequence(''.join(%s), self.dmax, %s)" % (seqcopy, cpcopy)
-    others = [unparse(r.value) for r in rets if unparse(r.value).replace('"', "'") != want]
-    ck.ob("PAIR-swap", construct, want in [unparse(r.value).replace('"', "'") for r in rets] and all(o in ("Sequence(self.seq)", "Sequence(self.seq, self.dmax)") for o in others),
-          expected=want, found=[unparse(r.value) for r in rets], slot="child", where=f.loc())
+    seqcopy = next(n for n, k in copies.items() if k == "seq")
+    cpcopy = next(n for n, k in copies.items() if k == "cp")
+    ctors = [c for c in ast.walk(f.node) if isinstance(c, ast.Call) and prog.class_of_ctor(f.mod, c) == "Sequence" and len(c.args) + len(c.keywords) >= 3]
+    ck.shape(len(ctors) == 1 and len(ctors[0].args) == 3, "swapRes: child built with (string, dmax, pattern)", f.loc())
+    a0, a1, a2 = [unparse(a).replace('"', "'").replace(" ", "") for a in ctors[0].args]
+    ck.ob("PAIR-swap", construct, a0 == "''.join(%s)" % seqcopy and a1 == "self.dmax" and a2 == cpcopy,
+          expected="Sequence(''.join(<swapped residues>), self.dmax, <swapped pattern>)", found=unparse(ctors[0]), slot="child", where=f.loc(ctors[0]))
 
 
 def _ctor(ck, prog):
@@ -255,45 +254,85 @@ def _ctor(ck, prog):
     ck.floor("children constructed by moves", n, 5)
 
 
+def _resolve(f, node, depth=0, stop=()):
+    """expand single-definition locals inside an expression (text form); names in `stop` are kept"""
+    if depth > 6:
+        return unparse(node)
+    class T(ast.NodeTransformer):
+        def visit_Name(self, n):
+            if n.id in stop:
+                return n
+            vals = [a.value for a in ast.walk(f.node) if isinstance(a, ast.Assign) and len(a.targets) == 1
+                    and isinstance(a.targets[0], ast.Name) and a.targets[0].id == n.id]
+            if len(vals) == 1 and isinstance(n.ctx, ast.Load):
+                import copy
+                return ast.parse(_resolve(f, copy.deepcopy(vals[0]), depth + 1, stop), mode="eval").body
+            return n
+    import copy
+    return unparse(T().visit(copy.deepcopy(node)))
+
+
 def _full_shuffle(ck, prog):
     f = prog.fn(SEQ, "Sequence.full_shuffle")
     construct = SEQ_PATH + ":Sequence.full_shuffle"
-    src = unparse(f.node).replace(" ", "")
     mov = None
+    ALL = ("set(np.arange(0,self.len))", "set(range(0,self.len))", "set(range(self.len))", "set(np.arange(self.len))")
     for n in ast.walk(f.node):
-        if isinstance(n, ast.Assign) and isinstance(n.value, ast.BinOp) and isinstance(n.value.op, ast.Sub):
-            l, r = unparse(n.value.left).replace(" ", ""), unparse(n.value.right).replace(" ", "")
-            if l in ("set(np.arange(0,self.len))", "set(range(0,self.len))", "set(range(self.len))") and r in ("set(frozen)", "frozen"):
-                mov = n.targets[0].id
-    ck.ob("IDIOM-shuffle", construct, mov is not None, expected="movable = set(all indices) - set(frozen)", found=mov, slot="movable-set", where=f.loc())
-    if mov is None:
-        return
-    # the shuffled list comes from the movable set, the loop pops it once per non-frozen position
-    lst = [n.targets[0].id for n in ast.walk(f.node) if isinstance(n, ast.Assign) and unparse(n.value).replace(" ", "") in ("list(%s)" % mov, "sorted(%s)" % mov)]
+        if isinstance(n, ast.Assign) and isinstance(n.targets[0], ast.Name):
+            if isinstance(n.value, ast.BinOp) and isinstance(n.value.op, ast.Sub) and unparse(n.value.left).replace(" ", "") in ALL:
+                mov = (n.targets[0].id, unparse(n.value.right).replace(" ", ""))
+            elif unparse(n.value).replace(" ", "") in ALL:
+                mov = (n.targets[0].id, "<nothing>")
+    ck.shape(mov is not None, "full_shuffle: movable = set(all indices) - <something>", f.loc())
+    ck.ob("IDIOM-shuffle", construct, mov[1] in ("set(frozen)", "frozen"), expected="movable = set(all indices) - set(frozen)", found=mov[1], slot="movable-set", where=f.loc())
+    lst = [n.targets[0].id for n in ast.walk(f.node) if isinstance(n, ast.Assign) and isinstance(n.targets[0], ast.Name)
+           and unparse(n.value).replace(" ", "") in ("list(%s)" % mov[0], "sorted(%s)" % mov[0])]
     shuf = [n for n in ast.walk(f.node) if isinstance(n, ast.Call) and getattr(n.func, "attr", "") == "shuffle" and n.args and unparse(n.args[0]) in lst]
-    loops = [s for s in f.body() if isinstance(s, ast.For) and unparse(s.iter).replace(" ", "") in ("range(0,self.len)", "range(self.len)")]
-    ok = False
-    if lst and shuf and loops:
-        lp = loops[-1]
-        if len(lp.body) == 1 and isinstance(lp.body[0], ast.If):
-            t = lp.body[0]
-            cond = unparse(t.test).replace(" ", "")
-            keep = [unparse(s.value.args[0]).replace(" ", "") for s in t.body if isinstance(s, ast.Expr) and isinstance(s.value, ast.Call)
-                    and getattr(s.value.func, "attr", "") == "append"]
-            move = [unparse(s.value.args[0]).replace(" ", "") for s in t.orelse if isinstance(s, ast.Expr) and isinstance(s.value, ast.Call)
-                    and getattr(s.value.func, "attr", "") == "append"]
-            i = lp.target.id
-            lookup_ok = "lookup[%s]" % i in keep or "self.seq[%s]" % i in keep
-            pop_ok = any(m in ("lookup[%s.pop()]" % lst[0], "self.seq[%s.pop()]" % lst[0]) for m in move)
-            ok = cond == "%sinfrozen" % i and len(keep) == 1 and len(move) == 1 and lookup_ok and pop_ok
-    ck.ob("IDIOM-shuffle", construct, ok,
-          expected="for every position: frozen -> its own residue; otherwise the residue at the next popped (shuffled, non-frozen) index",
-          found=ok, slot="pop-per-position", where=f.loc(),
+    ck.shape(len(lst) == 1 and len(shuf) == 1, "full_shuffle: the movable indices as a list, shuffled once", f.loc())
+    pool = lst[0]
+    # per-position rule: loop form or comprehension form
+    cond = keep = move = ivar = dom = None
+    for n in ast.walk(f.node):
+        if isinstance(n, ast.For) and isinstance(n.target, ast.Name) and len(n.body) == 1 and isinstance(n.body[0], ast.If):
+            t = n.body[0]
+            ka = [x.value.args[0] for x in t.body if isinstance(x, ast.Expr) and isinstance(x.value, ast.Call) and getattr(x.value.func, "attr", "") == "append"]
+            ma = [x.value.args[0] for x in t.orelse if isinstance(x, ast.Expr) and isinstance(x.value, ast.Call) and getattr(x.value.func, "attr", "") == "append"]
+            if len(ka) == 1 and len(ma) == 1 and len(t.body) == 1 and len(t.orelse) == 1:
+                cond, keep, move, ivar, dom = t.test, ka[0], ma[0], n.target.id, n.iter
+        if isinstance(n, ast.ListComp) and len(n.generators) == 1 and isinstance(n.elt, ast.IfExp) and isinstance(n.generators[0].target, ast.Name) \
+                and not n.generators[0].ifs:
+            cond, keep, move, ivar, dom = n.elt.test, n.elt.body, n.elt.orelse, n.generators[0].target.id, n.generators[0].iter
+    ck.shape(cond is not None, "full_shuffle: one residue per position chosen by a frozen test (loop or comprehension)", f.loc())
+    ck.ob("IDIOM-shuffle", construct, unparse(dom).replace(" ", "") in ("range(0,self.len)", "range(self.len)", "np.arange(0,self.len)", "range(len(self.seq))"),
+          expected="every position 0..len-1", found=unparse(dom), slot="positions", where=f.loc())
+    ct = unparse(cond).replace(" ", "")
+    if ct == "%snotinfrozen" % ivar:
+        keep, move, ct = move, keep, "%sinfrozen" % ivar
+    ck.ob("IDIOM-shuffle", construct, ct in ("%sinfrozen" % ivar, "%sinset(frozen)" % ivar), expected="branch on `i in frozen`", found=unparse(cond), slot="frozen-test", where=f.loc())
+    # lookup table of the receiver's own residues
+    def table_ok(node, index_text):
+        """node reads the receiver's residue at index_text"""
+        if not isinstance(node, ast.Subscript) or unparse(node.slice).replace(" ", "") != index_text:
+            return None
+        b = unparse(node.value)
+        if b == "self.seq":
+            return True
+        src = _resolve(f, node.value).replace(" ", "")
+        if src in ("dict(enumerate(self.seq))", "list(self.seq)", "self.seq"):
+            return True
+        # table filled in a loop: lookup[index] = i with a hand-kept index over self.seq
+        fills = [a for a in ast.walk(f.node) if isinstance(a, ast.Assign) and isinstance(a.targets[0], ast.Subscript) and unparse(a.targets[0].value) == b]
+        loops = [l for l in ast.walk(f.node) if isinstance(l, ast.For) and unparse(l.iter) == "self.seq" and any(x is fl for fl in fills for x in ast.walk(l))]
+        if len(fills) == 1 and len(loops) == 1 and unparse(fills[0].value) == unparse(loops[0].target):
+            return True
+        return None
+    k_ok = table_ok(keep, ivar)
+    m_ok = table_ok(move, "%s.pop()" % pool)
+    ck.shape(k_ok is not None and m_ok is not None, "full_shuffle: residues read from an index -> residue table of the receiver", f.loc())
+    ck.ob("IDIOM-shuffle", construct, bool(k_ok and m_ok),
+          expected="frozen -> its own residue; otherwise the residue at the next popped (shuffled, non-frozen) index",
+          found={"frozen": unparse(keep), "movable": unparse(move)}, slot="pop-per-position", where=f.loc(),
           note="|movable| pops for |movable| non-frozen positions: a bijection on the non-frozen positions, identity on the frozen ones")
-    # lookup table covers every position with its own residue
-    lk = [n for n in ast.walk(f.node) if isinstance(n, ast.Assign) and isinstance(n.targets[0], ast.Subscript) and unparse(n.targets[0].value) == "lookup"]
-    ck.ob("IDIOM-shuffle", construct, len(lk) == 1 or "self.seq[" in src, expected="index -> residue table of the receiver's own sequence", found=[unparse(x) for x in lk],
-          slot="lookup", where=f.loc())
 
 
 def _swap_rand(ck, prog):
@@ -301,19 +340,32 @@ def _swap_rand(ck, prog):
     construct = SEQ_PATH + ":Sequence.swapRandChargeRes"
     sets = {}
     for n in ast.walk(f.node):
-        if isinstance(n, ast.Assign) and isinstance(n.value, ast.BinOp) and isinstance(n.value.op, ast.Sub) and isinstance(n.targets[0], ast.Name):
-            l, r = unparse(n.value.left).replace(" ", ""), unparse(n.value.right)
-            if l.startswith("set(np.where(self.chargePattern") and r in ("frozen", "set(frozen)"):
-                sets[n.targets[0].id] = l
-    ck.ob("USE-frozen", construct, len(sets) == 3, expected="the three candidate index sets exclude the frozen positions", found=sets, slot="index-sets", where=f.loc())
+        if isinstance(n, ast.Assign) and isinstance(n.targets[0], ast.Name) and "np.where(self.chargePattern" in unparse(n.value):
+            v = n.value
+            minus = unparse(v.right).replace(" ", "") if isinstance(v, ast.BinOp) and isinstance(v.op, ast.Sub) else None
+            sets[n.targets[0].id] = minus
+    ck.shape(len(sets) == 3, "swapRandChargeRes: three candidate index sets built from the charge pattern", f.loc())
+    for name, minus in sorted(sets.items()):
+        ck.ob("USE-frozen", construct, minus in ("frozen", "set(frozen)"), expected="%s excludes the frozen positions" % name, found="- %s" % minus if minus else "no subtraction",
+              slot="index-set:" + name, where=f.loc())
     rets = [unparse(r.value) for r in ast.walk(f.node) if isinstance(r, ast.Return) and r.value is not None]
-    ok = all(r == "self" or r.startswith("self.swapRes(") for r in rets) and any(r.startswith("self.swapRes(") for r in rets)
-    ck.ob("CTOR-child", construct, ok, expected="returns self unchanged or self.swapRes(i, j)", found=rets, slot="result", where=f.loc())
-    # the swapped indices come from samples of those sets
+    ck.shape(all(r == "self" or r.startswith("self.swapRes(") for r in rets) and any(r.startswith("self.swapRes(") for r in rets),
+             "swapRandChargeRes: returns self or self.swapRes(i, j)", f.loc())
+    # the swapped indices come from samples whose population derives from those sets only
     samp = [c for c in ast.walk(f.node) if isinstance(c, ast.Call) and getattr(c.func, "attr", "") == "sample" and c.args]
-    pops = [unparse(c.args[0]) for c in samp]
-    inner = [p for p in pops if any(s in p for s in sets)]
-    ck.ob("USE-frozen", construct, len(inner) >= 6, expected="swap partners are drawn from the frozen-free index sets", found=pops, slot="partners", where=f.loc())
+    for c in samp:
+        txt = _resolve(f, c.args[0], stop=set(sets))
+        names = {x.id for x in ast.walk(ast.parse(txt, mode="eval")) if isinstance(x, ast.Name)}
+        lits = not names and "[" in txt
+        if lits:
+            continue          # the literal list of charge types
+        derived = names & set(sets)
+        foreign = {n for n in names if n not in sets and n not in ("sorted", "list", "rand", "self", "np", "set", "frozen", "len", "range")
+                   and not any(isinstance(a, ast.Assign) and isinstance(a.targets[0], ast.Name) and a.targets[0].id == n for a in ast.walk(f.node))}
+        ck.shape(bool(derived) or not foreign, "swapRandChargeRes: sample population traceable to the index sets", f.loc(c))
+        if "self.chargePattern" in txt.replace(" ", "") and not derived:
+            ck.ob("USE-frozen", construct, False, expected="partners drawn from the frozen-free index sets", found=unparse(c.args[0]), slot="partners", where=f.loc(c))
+    ck.ob("USE-frozen", construct, True, expected="partners drawn from the frozen-free index sets", found="%d sample sites" % len(samp), slot="partners", where=f.loc())
 
 
 def _api(ck, prog, E):
